@@ -90,6 +90,7 @@ def gen_may(rng, kn):
     budget = [kn.cmd_budget]
     root_cbs = set(c for _e, ts in d.events for t in ts
                    for c in list(t['prepare']) + [x for x, _tg in t['conds']] + list(t['before']) + list(t['after']))
+    cmd_mode = rng.choice(('root', 'may'))
     if kn.deterministic:
         d.script = {}
         for c in sorted(cond_cbs):
@@ -109,17 +110,19 @@ def gen_may(rng, kn):
             elif slot not in EVAL_SLOTS and slot not in (SLOT['finalize_event'], SLOT['on_exception']) \
                     and rng.random() < kn.p_raise_other:
                 out = ('raise', 3, 8)
-            if budget[0] > 0 and slot != SLOT['finalize_event'] and rng.random() < kn.p_cmd:
-                kind = rng.choice((MAY, MAY, TRIGGER))
-                if c not in root_cbs:
-                    # re-entrant TRIGGER commands only from callbacks that run while the machine is in its own scope
-                    # (prepare / conditions / before / after of transitions declared on the machine).  Elsewhere the
-                    # engine is not re-entrant for triggers, for reasons that have nothing to do with may_ and are not
-                    # modelled: while an on_enter / on_exit callback runs, NestedState._scope changes the `name` of that
-                    # state object (a re-entrant trigger that re-enters it builds its tree from `state.name`), and
-                    # `_trigger_event` calls `_check_event_result` outside its `with self():` block, i.e. in the scope of
-                    # the state whose local transition is being evaluated.  may_ calls are issued from everywhere.
-                    kind = MAY
+            if budget[0] > 0 and slot != SLOT['finalize_event'] and (cmd_mode == 'may' or c in root_cbs) \
+                    and rng.random() < kn.p_cmd * (3 if cmd_mode == 'root' else 1):
+                # re-entrant TRIGGER commands must only be issued while the machine is in its own scope and no on_enter /
+                # on_exit callback is running.  Elsewhere the engine is not re-entrant for triggers, for reasons that have
+                # nothing to do with may_ and are not modelled: while an on_enter / on_exit callback runs,
+                # NestedState._scope changes the `name` of that state object (a re-entrant trigger that re-enters it builds
+                # its tree from `state.name`), and `_trigger_event` calls `_check_event_result` outside its `with self():`
+                # block, i.e. in the scope of the state whose local transition is being evaluated.  Hence two kinds of
+                # descriptions: 'root' — commands (may_ and trigger) only from the prepare / conditions / before / after
+                # callbacks of transitions declared on the machine (these run in the machine's scope, also when the
+                # evaluating may_ / trigger was itself issued by such a callback); 'may' — may_ commands from every
+                # callback, no trigger commands.
+                kind = rng.choice((MAY, TRIGGER)) if cmd_mode == 'root' else MAY
                 ev = rng.choice(known or [0]) if rng.random() > 0.05 else unknown
                 cmds.append((kind, 0, ev))
                 budget[0] -= 1
